@@ -165,11 +165,27 @@ impl Cfg {
                         return Err(Box::new(CfgError::DuplicateLabel(s.name)));
                     }
                 }
+                // The labels in front of a directive that puts data into memory, or that are
+                // still open at the end of a segment, name that place: they are no names of
+                // the next instruction (`msg: .asciz "x"` in front of `f:` made msg a second
+                // name of the function f)
                 ParserNode::Directive(x) if x.dir == DirectiveType::DataSection => {
                     segment = Segment::Data;
+                    current_labels.clear();
                 }
                 ParserNode::Directive(x) if x.dir == DirectiveType::TextSection => {
                     segment = Segment::Text;
+                    current_labels.clear();
+                }
+                ParserNode::Directive(x)
+                    if matches!(
+                        x.dir,
+                        DirectiveType::Ascii { .. }
+                            | DirectiveType::Data(..)
+                            | DirectiveType::Space(_)
+                    ) =>
+                {
+                    current_labels.clear();
                 }
                 // Ignore other types of directives
                 ParserNode::Directive(_) => {}
